@@ -47,10 +47,25 @@ Proof. exact dump_on_every_outcome. Qed.
    written to, perform NO dump at all - for every program, outcome and mode. *)
 Theorem C06_flush_before_dump_would_lose_results :
   forall (stream : list pev) (kd : kind) (reg : Z -> bool) (out : ostate) (ctx timed : bool) (outfile : string),
-    out <> OutOk ->
+    out = OutNone \/ out = OutBroken ->
     let '(tr, oc, _) := exec stream kd reg out (kern_main_flush_first ctx timed outfile) pst0 in
     count_eff is_dump tr = 0 /\ oc = OIOError.
 Proof. exact flush_first_loses_results. Qed.
+
+(* kernprof -l -v: for ALL programs, outcomes and every state of the program's stdout on
+   which print() does not raise (untouched, None, or rebound to another stream and not
+   restored): exactly one report is written, to the stdout saved BEFORE the program ran,
+   and it shows the very profiler state that the single dump put into the file (the
+   profiler is switched off before the dump, nothing is recorded in between). *)
+Theorem C06_view_agrees_with_file :
+  forall (stream : list pev) (kd : kind) (reg : Z -> bool) (out : ostate) (ctx : bool) (outfile : string),
+    out <> OutBroken ->
+    let '(tr, oc, st) := exec stream kd reg out (kern_main_view ctx outfile) pst0 in
+    count_eff is_view tr = 1
+    /\ viewed_state tr = Some (prof_run reg pst0 stream)
+    /\ last_dump tr = Some (outfile, prof_run reg pst0 stream)
+    /\ count_eff is_dump tr = 1.
+Proof. exact view_agrees_with_file. Qed.
 
 (* With -i N a RepeatedTimer thread dumps snapshots into the same outfile while the
    program runs.  For ALL streams, outcomes, stdout states and ALL positions of the
